@@ -129,7 +129,7 @@ func c26gen(rng *rand.Rand) []c26op {
 		case k < 90:
 			prog = append(prog, third())
 		default:
-			op := c26op{kind: "sleep", d: []time.Duration{2 * time.Second, 20 * time.Second, 100 * time.Second}[rng.Intn(3)]}
+			op := c26op{kind: "sleep", d: []time.Duration{2 * time.Second, 20 * time.Second, 100 * time.Second, 2 * time.Second, 20 * time.Second, 500 * time.Millisecond, 1500 * time.Millisecond}[rng.Intn(7)]}
 			for m := rng.Intn(4); m > 0; m-- {
 				op.during = append(op.during, third())
 			}
@@ -458,7 +458,7 @@ func TestC26(t *testing.T) {
 			r.Sample(map[string]interface{}{"program": ps, "keepalive": ka.String(), "broker_messages": len(order), "trace_head": world.Strings(evs, 30)})
 		}
 	})
-	r.Finish("random legal API programs (5-30 calls: Register, Subscribe string/wildcard/short/predefined QoS 0-2, Publish registered/short/predefined QoS 0-3 with/without retain, Unsubscribe, Ping, Sleep 2/20/100 s with broker traffic during the sleep and repeated sleep cycles, Connect back to active, Disconnect) run lock-step by the real client library against the real gateway session and a conforming simulated broker that routes the client's own publishes back to its subscriptions and sends third-party messages (single and bursts of 2-10 on not-yet-registered topics) whenever a current subscription matches; lossless link, virtual time, keep-alive 10 s / 60 s / 1 h, with and without a will. Oracle: every call returns nil; the broker saw one CONNECT with the configured fields, exactly the Publish calls (topic, payload, QoS with -1 -> 0, retain) in order, exactly the SUBSCRIBE/UNSUBSCRIBE filters in order, DISCONNECT iff Disconnect was called; every PUBLISH the broker sent ran a handler of a matching filter with the broker's topic and payload exactly once (QoS 1: at least once) by the end of a 45 s grace period in the active state; no handler ran for anything else. Non-trivial = at least one publish in either direction.", nil)
+	r.Finish("random legal API programs (5-30 calls: Register, Subscribe string/wildcard/short/predefined QoS 0-2, Publish registered/short/predefined QoS 0-3 with/without retain, Unsubscribe, Ping, Sleep 0.5/1.5/2/20/100 s with broker traffic during the sleep and repeated sleep cycles, Connect back to active, Disconnect) run lock-step by the real client library against the real gateway session and a conforming simulated broker that routes the client's own publishes back to its subscriptions and sends third-party messages (single and bursts of 2-10 on not-yet-registered topics) whenever a current subscription matches; lossless link, virtual time, keep-alive 10 s / 60 s / 1 h, with and without a will. Oracle: every call returns nil; the broker saw one CONNECT with the configured fields, exactly the Publish calls (topic, payload, QoS with -1 -> 0, retain) in order, exactly the SUBSCRIBE/UNSUBSCRIBE filters in order, DISCONNECT iff Disconnect was called; every PUBLISH the broker sent ran a handler of a matching filter with the broker's topic and payload exactly once (QoS 1: at least once) by the end of a 45 s grace period in the active state; no handler ran for anything else. Non-trivial = at least one publish in either direction.", nil)
 }
 
 func opKind(s string) string {
